@@ -1084,6 +1084,24 @@ func (m *fullMon) c12PodDelete(c *APICall, now time.Time) {
 	if rj.DeletionTimestamp != nil {
 		reasons = append(reasons, "job-deleting")
 	}
+	// a Job that is refused (cannot create all of its tasks) may stop the tasks it has
+	// already created: they are "no longer needed" in the sense of C10. The refusal may
+	// be decided in the very sync that deletes (before the annotation is persisted).
+	if hasAdmissionError(rj) {
+		reasons = append(reasons, "refused")
+	} else if cur := m.t.jobByUID(string(rj.UID)); cur != nil && hasAdmissionError(cur) {
+		reasons = append(reasons, "refused")
+	} else {
+		for _, o := range m.w.API.ListRaw(ResPods) {
+			fp := o.(*corev1.Pod)
+			if fp.Namespace == rj.Namespace && strings.HasPrefix(fp.Name, rj.Name+"-") {
+				if ref := metav1.GetControllerOf(fp); ref == nil || ref.UID != rj.UID {
+					reasons = append(reasons, "refused-foreign-object-on-task-name")
+					break
+				}
+			}
+		}
+	}
 	for _, d := range m.t.dynsSince(syncStart) {
 		pt := int64(0)
 		if v := d.Jobs.DefaultPendingTimeoutSeconds; v != nil {
@@ -1317,6 +1335,27 @@ func (m *fullMon) fixpoint() {
 				if alive == 0 {
 					m.v("C10/stuck", "%s is neither finished nor has any live task at fixpoint (phase %s; truth %s)", fmtJob(j), j.Status.Phase, m.truthString(j))
 				}
+			}
+		}
+		if s.stopped {
+			return
+		}
+		// --- a finished Job that is not being deleted has no task left running unattended (C10, last clause)
+		if j.Status.Condition.Finished != nil && j.DeletionTimestamp == nil {
+			for _, p := range m.t.podsOfJob(string(j.UID)) {
+				if podTerminal(p) || p.DeletionTimestamp != nil {
+					continue // finished, or deletion requested (a dead node may never confirm it)
+				}
+				rec := "not recorded in status.tasks; " + orphanCause(j, p)
+				for _, r := range j.Status.Tasks {
+					if r.Name == p.Name {
+						rec = "recorded in status.tasks"
+					}
+				}
+				m.stat("mon.c10.fixpoint_live_checked")
+				m.v("C10/finished-with-live-task", "%s is finished (%s) but Pod %s still exists at fixpoint, is not finished and its deletion was never requested (phase %s; %s)", fmtJob(j), j.Status.Condition.Finished.Result, p.Name, p.Status.Phase, rec)
+				m.v("C12/finished-with-live-task", "%s is finished (%s) but Pod %s still exists at fixpoint, is not finished and its deletion was never requested (phase %s; %s)", fmtJob(j), j.Status.Condition.Finished.Result, p.Name, p.Status.Phase, rec)
+				break
 			}
 		}
 		if s.stopped {
